@@ -358,3 +358,18 @@ Example C05_ex_cache :
   | _ => False
   end.
 Proof. vm_compute. split; reflexivity. Qed.
+
+(* 6.2.5.3: every DW_LNE_define_file adds an entry, also one equal to an entry the table already has;
+   C05_decode_instrs demands all of them (defined_files keeps repeats), so file numbers keep counting *)
+Example C05_ex_repeated_define_file :
+  let f := IDefineFile [97; 46; 99] 1 0 0 in
+  let prog := [pk f 0 0; pk f 2 1; pk (ISetFile 3) 0 0; pk ICopy 0 0] in
+  let bs := encode_prog (cfg_of ex_structs3) prog in
+  wf_prog (cfg_of ex_structs3) ex_params (map (fun x => fst (fst x)) prog) = true /\
+  match decode_line_program (cfg_of ex_structs3) ex_params true bs 0 (zlen bs) with
+  | Ok (es, fs, rem, rest) =>
+      fs = [{| fe_name := [97; 46; 99]; fe_dir := 1; fe_mtime := 0; fe_length := 0 |};
+            {| fe_name := [97; 46; 99]; fe_dir := 1; fe_mtime := 0; fe_length := 0 |}] /\ rem = 0
+  | Err _ => False
+  end.
+Proof. vm_compute. repeat split; reflexivity. Qed.
